@@ -207,7 +207,8 @@ def run_lle(case, rec):
             else:
                 gap = gibbs_gap(th, ids, flows / F, L / F, T)
                 rec.hit('gibbs-gap-evaluated')
-                sfx = '/within-objective-tolerance' if gap <= 1e-6 else '/gibbs-gap>1e-6'
+                # the optimisers stop on the CHANGE of the objective falling below 1e-6, which leaves the distance to the minimum within a small multiple of it
+                sfx = '/within-objective-tolerance' if gap <= 1e-5 else '/gibbs-gap>1e-5'
         rec.check(dev <= bound, 'equal-activity', mtag + sfx, f'lle({method}) at T={T}: activities differ between the liquids by {dev:.3g} of the largest activity (l: {al.tolist()}, L: {aL.tolist()}; ids={ids})', residual=dev)
         # top chemical has a mass fraction in L at least as high as in l
         if top is not None:
